@@ -171,6 +171,37 @@ Allowed(doc, m, out) ==
     [] out.r = "err" -> Blocked(doc, m.op, m.path)
     [] OTHER -> IF Impossible(m.op, m.path) THEN FALSE ELSE Undefined(doc, m) \/ AllowedOk(doc, m, out.after)
 
+(* Known defect C13-1 made precise.  The mutators read a slice with their own arithmetic (three copies): bounds        *)
+(* normalised by adding the length only (no clamping below -length: nothing selected), absent end = last element, END   *)
+(* INCLUSIVE; M = jp/modify.go (Modify, ModifyOne, and slices before the last fragment of Remove), R = Slice.remove/removeOne     *)
+(* (a negative step is anchored at the end bound), S = jp/set.go (Set and Del forms, inner positions; the truncating division    *)
+(* keeps the start element of a range that is empty by less than one step).  ImplAllowed is Allowed with every slice of  *)
+(* the path read that way.  It never accepts anything: a deviation that it explains exactly gets the locus               *)
+(* slice/inclusive-end-reading, every other deviation in the same cell stays an ordinary one.                            *)
+MutIdx(f, n, var) ==
+  LET st == StepOf(f)
+      s0 == IF f.sa THEN 0 ELSE f.s
+      s == IF s0 < 0 THEN n + s0 ELSE s0
+      e0 == IF f.ea THEN n - 1 ELSE IF f.e < 0 THEN n + f.e ELSE f.e
+      e == IF e0 >= n THEN n - 1 ELSE e0
+  IN IF st = 0 \/ s < 0 \/ e < 0 \/ s >= n THEN <<>>
+     ELSE IF st > 0 THEN (IF e >= s THEN Up(s, e + 1, st, n) ELSE IF var = "S" /\ s - e < st THEN <<s>> ELSE <<>>)
+     ELSE IF e <= s THEN (IF var = "R" THEN Down(e + ((s - e) \div (0 - st)) * (0 - st), e - 1, st, n) ELSE Down(s, e - 1, st, n))
+     ELSE IF var = "S" /\ e - s < 0 - st THEN <<s>> ELSE <<>>
+MutIdxM(f, n) == MutIdx(f, n, "M")
+MutIdxR(f, n) == MutIdx(f, n, "R")
+MutIdxS(f, n) == MutIdx(f, n, "S")
+LastStepper(path) == LET ix == {i \in 1..Len(path) : path[i].f \notin {"root", "at", "bracket"}} IN
+                     IF ix = {} THEN 0 ELSE CHOOSE i \in ix : \A j \in ix : j <= i
+ImplPath(doc, m) ==
+  LET mx == Max2(MaxArrLen(doc), 8) IN
+  [i \in 1..Len(m.path) |->
+     IF m.path[i].f # "slice" THEN m.path[i]
+     ELSE IF m.op \in {"Modify", "ModifyOne"} THEN WithOv(m.path[i], MutIdxM, mx)
+     ELSE IF m.op \in {"Remove", "RemoveOne"} THEN (IF i = LastStepper(m.path) THEN WithOv(m.path[i], MutIdxR, mx) ELSE WithOv(m.path[i], MutIdxM, mx))
+     ELSE WithOv(m.path[i], MutIdxS, mx)]
+ImplAllowed(doc, m, out) == HasSlice(m.path) /\ Allowed(doc, [m EXCEPT !.path = ImplPath(doc, m)], out)
+
 \* the outcome the generator follows (one representative of the allowed set)
 Representative(doc, m) ==
   IF Blocked(doc, m.op, m.path) THEN doc
